@@ -123,7 +123,15 @@ def run(tier, seed):
                     else:
                         T.run('gridded_test', {'test': test, 'grid': grid, 'rates': rates, 'events': events, 'num_simulations': 0,
                                                'checks': ['observed']}, key=('gz', gname, fi, ci, test))
-    return T.result(bound='binary_joint_log_likelihood_ndarray and _brier_score_ndarray on every (rates, counts) over 4 rates x 3 counts '
+    # ---- per-cell maps (poisson_spatial_likelihood / binary_spatial_likelihood): every count pattern 0..3 on up to 3 cells
+    from . import oracles_contracts  # noqa: F401  (registers 'cell_maps')
+    for nc in (1, 2, 3):
+        for counts in itertools.product((0, 1, 2, 3), repeat=nc):
+            for rates in ([0.5, 0.25, 2.0][:nc], [1e-3, 7.5, 0.125][:nc]):
+                for kind in ('binary', 'poisson'):
+                    T.run('cell_maps', {'kind': kind, 'rates': rates, 'counts': list(counts), 'forecast_total': sum(rates) * 1.5,
+                                        'n_events': sum(counts)}, key=('cellmap', kind, counts, rates[0]))
+    return T.result(bound='per-cell likelihood maps on every count pattern 0..3 over <= 3 cells; binary_joint_log_likelihood_ndarray and _brier_score_ndarray on every (rates, counts) over 4 rates x 3 counts '
                           'up to length 3 and 2x2, random 1-D/2-D arrays (rates 1e-9..10, zeros); _binary_likelihood_test / '
                           '_brier_score_test on %d arrays; binary_spatial / binary_conditional_likelihood / brier_score_test on '
                           '%d grids x 5 forecasts x 7 catalogs (no events .. several per bin, events in zero-rate bins)'
